@@ -70,13 +70,19 @@ pub fn one_case(r: &mut Rng, silent: &Arc<Mutex<Option<String>>>) -> Case {
     simk::configure(simk::SetupConfig { sq_start: start, cq_start: r.next() as u32, ..Default::default() });
     // The ring mode does not change how entries are queued: any thread may queue on any ring
     // (single issuer only restricts who enters the kernel).
-    // (Kernel-thread rings pass to_submit = 0 to enter, which the model's last observation does
-    // not cover: default and single-issuer rings only.)
-    let mode = r.below(3);
+    // A kernel-thread (SQPOLL) ring passes to_submit = 0 to enter and entering consumes nothing:
+    // the kernel thread is this driver's own kernel steps.
+    let mode = r.below(4);
     let cfg = a10::Ring::config().with_submission_queue_size(len);
-    let cfg = if mode == 1 { cfg.single_issuer() } else { cfg };
+    let cfg = match mode {
+        1 => cfg.single_issuer(),
+        2 => cfg.with_kernel_thread(),
+        _ => cfg,
+    };
+    let kthread = mode == 2;
     let ring = cfg.build().expect("ring on the simulated kernel");
     let ring_fd = simk::with(|s| s.fd);
+    simk::with(|s| s.sqpoll_auto = false);
     let sq = ring.sq();
     let wakes = WakeLog::default();
     let mut all_fds: Vec<Box<ManuallyDrop<a10::AsyncFd>>> = Vec::new();
@@ -290,6 +296,10 @@ pub fn one_case(r: &mut Rng, silent: &Arc<Mutex<Option<String>>>) -> Case {
         if r.is_err() {
             let msg = silent.lock().unwrap().take().unwrap_or_default();
             oracle.get_or_insert(format!("Ring::poll panicked: {msg}"));
+        } else if kthread {
+            if to_submit != 0 {
+                oracle.get_or_insert(format!("kernel-thread ring: enter was told to submit {to_submit} entries (the kernel thread takes them itself)"));
+            }
         } else if to_submit != before as i128 {
             oracle.get_or_insert(format!("{before} accepted submissions are pending but enter tells the kernel to take {to_submit}: the rest is never submitted"));
         }
@@ -344,18 +354,18 @@ pub fn one_case(r: &mut Rng, silent: &Arc<Mutex<Option<String>>>) -> Case {
     let mut full_obs = pre_obs;
     full_obs.extend(obs);
     let coq = format!(
-        "{{| sq_len := {len}%N; sq_start := {start}%N; sq_progs := {progs_coq}; sq_events := [{}{}] |}}",
+        "{{| sq_len := {len}%N; sq_kthread := {kthread}; sq_start := {start}%N; sq_progs := {progs_coq}; sq_events := [{}{}] |}}",
         if events.is_empty() && !pre_events.is_empty() { pre_events.trim_end_matches("; ").to_string() } else { pre_events },
         events
     );
     let json = format!(
-        "{{\"sq_entries\":{len},\"start\":{start},\"programs\":{progs_json},\"prefilled\":{prefill},\"kernel_steps\":{ksteps},\"schedule\":[{jevents}]}}"
+        "{{\"sq_entries\":{len},\"ring_mode\":{mode},\"start\":{start},\"programs\":{progs_json},\"prefilled\":{prefill},\"kernel_steps\":{ksteps},\"schedule\":[{jevents}]}}"
     );
     let wraps = (start as u64 + (prefill + consumed.len() + pending.len()) as u64) > u32::MAX as u64;
     let preemptions = out.trace.iter().filter(|t| t.2).count();
     let tags = vec![
         format!("sq_len:{len}"),
-        format!("ring_mode:{}", ["default", "single_issuer", "default"][mode as usize]),
+        format!("ring_mode:{}", ["default", "single_issuer", "kernel_thread", "default"][mode as usize]),
         format!("threads:{n_threads}"),
         format!("preemptions:{}", preemptions.min(6)),
         format!("tail_wraps:{wraps}"),
